@@ -10,7 +10,7 @@ DONE = {
          "thousands of generated call histories per run on all key types, every return value compared with a reference model, final independent decode; hangs/aborts via watchdog + isolated re-runs. Search, not proof."),
  "C02": ("exploration", "model-based random histories with generated close/reopen points and parameters, in-process and spawned-process reopen",
          "every reopen is compared with the model (all keys, absent keys, len, iteration); a second process recomputes a digest of the directory."),
- "C03": ("fault_enumeration", "every flush/sync call of generated histories is a crash point: snapshot + independent decode + reopen vs model; io-trace / strace of OS sync requests",
+ "C03": ("fault_enumeration", "every flush/sync call of generated histories is a crash point: snapshot + independent decode + reopen vs model; io-trace / strace of OS sync requests; SIGKILL of a writer process at a generated sync point; injected write refusal (RLIMIT_FSIZE) followed by a sync that returns Ok",
          "each successful flush/sync in each generated history is treated as a crash: the bytes on disk at that moment must decode and open to the model state; OS sync requests are observed through the io-trace hook."),
  "C04": ("exploration", "generated map states x table sizes x 7 iterator flavours with hash-targeted bucket occupancy, multiset oracle",
          "traversals over generated states on 19 table sizes with keys aimed at the bitmap-scan edges; exact multiset, size_hint and fused-end checks."),
@@ -20,11 +20,11 @@ DONE = {
          "per-call invariants on the decoded slot tiling and free lists plus a size bound derived from observed peaks."),
  "C07": ("exploration", "differential execution of one generated history under k generated parameter sets against one model; reopen under foreign parameters",
          "each history runs under 4 (10) parameter sets incl. tiny tables and minimal buffers; all must agree with the model and the stored table size must survive reopen."),
- "C08": ("exploration", "bounded-exhaustive breadth-first enumeration of on-disk images over a small colliding alphabet from seeded images at offset-width boundaries, plus seeded random deep walks; model + independent decoder at every transition",
+ "C08": ("exploration", "bounded-exhaustive breadth-first enumeration of on-disk images over a small colliding alphabet from seeded images at offset-width boundaries, plus seeded random deep walks; model + independent decoder at every transition; model-based random single-session histories on colliding keys observed through the files only",
          "systematic state-space exploration of the image graph around the 16 KiB (2 MiB) offset-width boundaries; exhaustive only where the evidence says the graph was closed under the cap."),
  "C09": ("exploration", "exhaustive length sweep of the crate's slot-size arithmetic through the layout-probe hook + end-to-end sentinel sweep over lengths",
          "the arithmetic part enumerates every value length up to 16 MiB+64 KiB and every key length up to 64 KiB x offset widths (complete); the end-to-end part stores ~9000 lengths between sentinels."),
- "C10": ("exploration", "boundary-biased generated integers / byte strings; round-trip, by-value == by-ref, equality <=> same entry",
+ "C10": ("exploration", "boundary-biased generated integers / byte strings; round-trip, by-value == by-ref, equality <=> same entry; model-based random sessions on typed maps; thousands of short keys recovered through the iterators",
          "hundreds of thousands of integer pairs at every encoding boundary plus typed maps and prefix/NUL/non-UTF-8 key families."),
  "C11": ("exploration", "model-based interleaved histories over 2-5 maps with generated handle churn; one model per map; byte comparison of the other maps' files",
          "generated interleavings over several maps and handles, cross-talk observed on the raw files."),
@@ -32,7 +32,7 @@ DONE = {
          "15 golden images from the pinned release are decoded, opened, re-written and continued by generated histories."),
  "C13": ("exploration", "enumeration of type pairs x file position and of single-byte signature mutations; open must be refused and files unchanged",
          "all ordered type pairs x 4 positions and all 16 signature bytes x 3 files x 5 types (thorough: all 255 values, exhaustive)."),
- "C15": ("exploration", "generated read-only sessions on generated closed states; results vs model and files byte-identical before/after",
+ "C15": ("exploration", "generated read-only sessions on generated closed states and on golden images of the released version; results vs model and files byte-identical before/after",
          "generated read-only call sequences on states from generated histories; raw bytes compared."),
  "C16": ("fault_enumeration", "RLIMIT_FSIZE write refusals injected in a child process at every buffer-chunk boundary threshold; recovery and durability oracle",
          "each threshold between 'nothing fits' and 'everything fits' for three workload shapes x flush/sync_data/sync_all is injected; error reporting, in-memory view and recovery are checked."),
@@ -48,7 +48,7 @@ m = {"version": 1,
  "hooks": {"guard": "cargo feature verif_hooks (abyssiniandb)",
            "enable": "the harness crate depends on abyssiniandb by path (/repo) with features = [\"verif_hooks\"]; every ./check invocation runs cargo build first, so the harness is rebuilt from /repo's working tree",
            "baseline_off_cmd": "cd /repo && cargo test --workspace --no-fail-fast --offline",
-           "source_commits": ["8857db9"], "add_only": True},
+           "source_commits": ["8857db9", "bb7d8e0"], "add_only": True},
  "engines": [{"name": "vp", "path": "harness", "serves_properties": sorted(DONE.keys()),
               "kind_free_text": "Rust harness (lib vpcore + bin vp): proptest strategies -> call histories -> interpreter against the real crate and a BTreeMap model; independent decoder of the on-disk format; worker processes under a watchdog; two build profiles (release, strict = debug assertions + overflow checks)"}],
  "checks": [], "not_applicable": [],
